@@ -193,6 +193,25 @@ CLAIMS = {
         "the real code, see DESIGN); timed/batch APIs and degraded paths not exercised; concurrency is C05/C09. Known finding "
         "KF-C06-normalisation-band.",
    design="§3 C06"),
+ "C07": dict(
+   engine="qcache+tiered",
+   technique="Lean 4 proof (cache model: served-entry, reverse invalidation, exact boundary decision, generation guard over any history; Mathlib lemma: pre-filter bounds dominate the exact quantities over the reals) + differential correspondence with boundary-stress vectors + engine-level freshness oracle",
+   text="C07_served_entry (same scope, requested k >= wanted k, a prefix of a stored entry), C07_deleted_doc_not_served + "
+        "C07_only_store_adds + C07_unmentioned_stays (a deleted/overwritten document is not served from an older result, through "
+        "any store-free history), C07_kept_entry_is_unaffected + C07_keep_means_strictly_outside (a surviving entry is full and the "
+        "inserted vector lies strictly outside its finite boundary), C07_stale_store_refused + "
+        "C07_invalidation_advances_generation + C07_result_computed_before_write_is_not_stored (generation guard, any history), "
+        "C07_clear_empties, C07_prefilter_sound_over_reals (every dimension, every prefix length). Tie: qcache engine vs model "
+        "on random histories and on vectors 2e-4..30% inside/outside a cached boundary with the difference spread over prefix/"
+        "tail (dims 8..96); engine level: every CacheHit of the real TieredEngine is matched to the stored result it is a prefix "
+        "of and judged against the write log (exists now, current vector's distance, nothing written since strictly inside the "
+        "boundary as a fresh search would report it, scope, k).",
+   note="Partial: float rounding inside the pre-filter is exercised (256-ulp band reported ambiguous), not proved; the schedule half "
+        "(store-after-invalidate race between a searching and a writing thread) is proved on the sequential model only - the "
+        "re-check under the write lock is read, not explored by a scheduler; the tiered model abstains on cached answers (oracle "
+        "only). Similarity hits (cosine > 0.52 by default) serve ANOTHER query's fresh entry by design: judged relative to the "
+        "stored query, as the statement's clauses are. One defect fixed: d496037.",
+   design="§3 C07"),
 }
 
 NOT_APPLICABLE = {
